@@ -2340,9 +2340,8 @@ class Kconfig(object):
                     continue
 
                 name, val = match.groups()
-                if name in self.syms:
-                    sym = self.syms[name]
-
+                sym = self.syms.get(name)
+                if sym is not None and sym.nodes:
                     if sym.orig_type is STRING:
                         match = _conf_string_match(val)
                         if not match:
@@ -2351,9 +2350,14 @@ class Kconfig(object):
 
                     sym._old_val = val
                 else:
-                    # Flag that the symbol no longer exists, in
-                    # case something still depends on it
+                    # Flag that the symbol no longer exists (it may still be
+                    # referenced in expressions, without being defined), in
+                    # case something still depends on it or on one of its
+                    # deprecated aliases
                     _touch_dep_file(path, name)
+                    if self._deprecated_options:
+                        for dep_name in self._deprecated_options.get_deprecated_option(name):
+                            _touch_dep_file(path, dep_name)
 
     def _write_old_vals(self, path):
         # Helper for writing auto.conf. Basically just a simplified
